@@ -27,7 +27,8 @@ def _binding(data: bytes) -> t.Optional[tuple]:
         # the numbers as integers (a leading zero is not a different SID) and the literal first character
         sid = (m.group(1), int(m.group(2)), int(m.group(3)), tuple(int(x) for x in m.group(4)[1:].split("-")))
         ki = bytes(k.key_info)
-        if not k.is_public_key:
+        pub = bool(int(k.flags) & 1)          # the flag as stored in the blob (MS-GKDI), not a derived property
+        if not pub:
             kb: t.Any = ki                   # the key-identifier nonce is the KDF context
         else:
             # ephemeral public key (MS-GKDI 2.2.3): the modulus and the public value of an FFC DH key, both coordinates of an
@@ -40,7 +41,7 @@ def _binding(data: bytes) -> t.Optional[tuple]:
                 kb = (magic, kl, int.from_bytes(ki[8 : 8 + kl], "big"), int.from_bytes(ki[8 + kl : 8 + 2 * kl], "big"))
             else:
                 kb = None       # not recognisable as a key blob: no claim about key_info itself (the flag below still counts)
-        return (sid, str(k.root_key_identifier), int(k.l0), int(k.l1), int(k.l2), bool(k.is_public_key), kb)
+        return (sid, str(k.root_key_identifier), int(k.l0), int(k.l1), int(k.l2), pub, kb)
     except Exception:  # noqa
         return None
 
